@@ -413,7 +413,9 @@ func TestC07(t *testing.T) {
 			} else {
 				c.Specials = append(c.Specials, x+"$badfilter")
 			}
-			if len(rs) <= 3 && chance(t, "rewrite", 2) {
+			if len(rs) <= 3 && chance(t, "stealth", 2) {
+				c.Specials = append(c.Specials, "@@||x.com^$stealth")
+			} else if len(rs) <= 3 && chance(t, "rewrite", 2) {
 				c.Specials = append(c.Specials, pick(t, "rw", []string{"||x.com^$dnsrewrite=1.2.3.4,important", "@@||x.com^$dnsrewrite", "||x.com^$dnsrewrite=NXDOMAIN"}))
 			}
 		}
